@@ -435,7 +435,7 @@ Lemma retry_loop_spec : forall iv maxd cancel pick0 calls t kk atts r te, iv <> 
   (cancel = None -> r <> RCtxCanceled) /\
   (* only the horizon, or the end of the input, ends a run of plain failures *)
   (r = RPending -> length atts = length calls) /\
-  (r = RGiveUpNil \/ r = RLoopExit -> maxd <= te).
+  (r = RGiveUp \/ r = RLoopExit -> maxd <= te).
 Proof.
   intros iv maxd cancel pick0 calls. induction calls as [|c rest IH]; intros t kk atts r te Hne H.
   - cbn [retry_loop] in H. destruct (negb (t <? maxd)) eqn:Em; injection H as <- <- <-;
@@ -472,7 +472,7 @@ Proof.
          (r = RCtxCanceled -> te = Z.max (last_end t atts) cn)) /\
       (cancel = None -> r <> RCtxCanceled) /\
       (r = RPending -> length atts = length (c :: rest)) /\
-      (r = RGiveUpNil \/ r = RLoopExit -> maxd <= te)).
+      (r = RGiveUp \/ r = RLoopExit -> maxd <= te)).
     { intros r0 Hr0 E. injection E as <- <- <-. split; [apply Ha; exact I|]. split.
       - destruct Hr0 as [[-> Ho]|[[-> Ho]|[-> Ho]]]; cbn [stop_ok]; exists [], a; (split; [reflexivity|split; [constructor|exact Ho]]).
       - split; [|split; [|split]].
@@ -568,7 +568,7 @@ Theorem stops_on_success_cancel_noretry : forall iv maxd cancel pick0 calls atts
   (forall i, (i < length atts)%nat -> a_out (nth i atts att0) = c_out (nth i calls call0)) /\
   (cancel = None -> r <> RCtxCanceled) /\
   (r = RPending -> length atts = length calls) /\
-  (r = RGiveUpNil \/ r = RLoopExit -> maxd <= te).
+  (r = RGiveUp \/ r = RLoopExit -> maxd <= te).
 Proof.
   intros iv maxd cancel pick0 calls atts r te Hne H.
   destruct (retry_loop_spec iv maxd cancel pick0 calls 0 0 atts r te Hne H) as (Ht & Hs & _ & Hc & Hp & Hg).
@@ -580,7 +580,7 @@ Qed.
 Theorem retries_while_failing : forall iv maxd pick0 calls atts r te, iv <> [] ->
   Forall (fun c => c_out c = OPlain) calls ->
   do_with_retry iv maxd None pick0 calls = (atts, r, te) ->
-  (r = RPending /\ length atts = length calls) \/ ((r = RGiveUpNil \/ r = RLoopExit) /\ maxd <= te).
+  (r = RPending /\ length atts = length calls) \/ ((r = RGiveUp \/ r = RLoopExit) /\ maxd <= te).
 Proof.
   intros iv maxd pick0 calls atts r te Hne Hpl H.
   destruct (stops_on_success_cancel_noretry iv maxd None pick0 calls atts r te Hne H) as (Hs & Ho & Hc & Hp & Hg).
@@ -624,15 +624,27 @@ Proof.
   pose proof (sched_positive iv p Hne Hpos). lia.
 Qed.
 
-(** "giving up" after the horizon is reported as success: the loop can return nil although
-    every attempt failed (model-only observation: the horizon is 30 days) *)
-Theorem nil_means_success_refuted : exists iv maxd calls atts te,
+(** nil means success: the loop returns nil only when the last attempt succeeded — also at
+    the horizon ("final attempt; giving up" returns the last error) *)
+Theorem nil_only_after_success : forall iv maxd cancel pick0 calls atts r te, iv <> [] ->
+  do_with_retry iv maxd cancel pick0 calls = (atts, r, te) -> returns_nil r = true ->
+  exists l a, atts = l ++ [a] /\ Forall plain l /\ a_out a = OOk.
+Proof.
+  intros iv maxd cancel pick0 calls atts r te Hne H Hn.
+  destruct (stops_on_success_cancel_noretry iv maxd cancel pick0 calls atts r te Hne H) as (Hs & _).
+  destruct r; try discriminate Hn. exact Hs.
+Qed.
+
+(** the code before 9155753: "giving up" after the horizon was reported as success — the loop
+    returned nil although every attempt had failed *)
+Theorem giving_up_returned_nil_orig_refuted : exists iv maxd calls atts r te,
   iv <> [] /\ all_positive iv = true /\
-  do_with_retry iv maxd None false calls = (atts, RGiveUpNil, te) /\ Forall plain atts /\ atts <> [].
+  do_with_retry iv maxd None false calls = (atts, r, te) /\ returns_nil_gen false r = true /\
+  Forall plain atts /\ atts <> [].
 Proof.
   exists [10], 25, [Call OPlain 1 0; Call OPlain 1 0; Call OPlain 20 0].
-  eexists. eexists. split; [discriminate|]. split; [reflexivity|]. split; [vm_compute; reflexivity|].
-  split; [repeat constructor|discriminate].
+  eexists. exists RGiveUp. eexists. split; [discriminate|]. split; [reflexivity|]. split; [vm_compute; reflexivity|].
+  split; [reflexivity|]. split; [repeat constructor|discriminate].
 Qed.
 
 (** * (c) test CA *)
@@ -697,6 +709,137 @@ Section TestCAProofs.
   Theorem failed_order_is_retryable : forall ca testca attempts o rest, o <> OrdOk ->
     issue norm ca testca attempts (o :: rest) = ([directory_for norm ca testca (0 <? attempts)%Z], IErr).
   Proof. intros ca testca attempts o rest Ho. unfold issue, do_issue. destruct o; [congruence| |]; reflexivity. Qed.
+
+  (** ** the asynchronous obtain (doWithRetry around Issue) with a distinct test CA *)
+  Lemma issue_cases : forall ca testca k o1 rest, testca <> [] -> ca <> testca -> norm ca <> testca ->
+    issue norm ca testca k (o1 :: rest) =
+      if (0 <? k)%Z then
+        match o1 with
+        | OrdOk => match rest with
+                   | [] => ([testca], IErr)
+                   | OrdOk :: _ => ([testca; norm ca], ICert (norm ca))
+                   | OrdRateLimited :: _ => ([testca; norm ca], IErr)
+                   | OrdFail :: _ => ([testca; norm ca], IErrNoRetry)
+                   end
+        | _ => ([testca], IErr)
+        end
+      else match o1 with OrdOk => ([norm ca], ICert (norm ca)) | _ => ([norm ca], IErr) end.
+  Proof.
+    intros ca testca k o1 rest Ht Hne Hn. unfold issue, do_issue, directory_for, using_test_ca.
+    assert (E1 : str_eqb ca testca = false).
+    { destruct (str_eqb ca testca) eqn:E; [apply str_eqb_eq in E; contradiction|reflexivity]. }
+    assert (E2 : str_eqb (norm ca) testca = false).
+    { destruct (str_eqb (norm ca) testca) eqn:E; [apply str_eqb_eq in E; contradiction|reflexivity]. }
+    assert (E3 : is_empty_name testca = false) by (destruct testca; [congruence|reflexivity]).
+    assert (E4 : str_eqb testca testca = true) by (apply str_eqb_eq; reflexivity).
+    rewrite E1, E3. destruct (0 <? k)%Z; cbn [andb negb].
+    - rewrite E4. cbn [andb]. destruct o1; reflexivity.
+    - reflexivity.
+  Qed.
+
+  Lemma nth_error_skipn' : forall (A : Type) n (l : list A) i, nth_error (skipn n l) i = nth_error l (n + i).
+  Proof. induction n; intros l i; [reflexivity|]. destruct l; [destruct i; reflexivity|]. cbn. apply IHn. Qed.
+
+  (** [ds] are the directories of the first [length ds] orders, in the order of [outs] *)
+  Definition follows (testca prod : str) (ds : list str) (outs : list order_outcome) : Prop :=
+    forall i, nth_error ds i = Some testca -> nth_error outs i = Some OrdOk ->
+              (S i < length outs)%nat -> nth_error ds (S i) = Some prod.
+
+  Lemma obtain_async_inv : forall fuel ca testca k outs ds r,
+    testca <> [] -> ca <> testca -> norm ca <> testca -> (0 <= k)%Z ->
+    obtain_async norm fuel ca testca k outs = (ds, r) ->
+    (length ds <= length outs)%nat /\
+    (* a certificate comes from the production directory *)
+    (forall d, r = ICert d -> d = norm ca) /\
+    (* a successful test order is followed by a production order *)
+    follows testca (norm ca) ds outs /\
+    (* every order goes to one of the two directories; the first attempt to production,
+       every later attempt to the test CA first *)
+    (forall d, In d ds -> d = testca \/ d = norm ca) /\
+    (forall d, hd_error ds = Some d -> d = if (0 <? k)%Z then testca else norm ca).
+  Proof.
+    induction fuel as [|f IH]; intros ca testca k outs ds r Ht Hne Hn Hk H.
+    - cbn in H. inversion H; subst. unfold follows. split; [cbn; lia|]. split; [discriminate|].
+      split; [intros i Hi; destruct i; discriminate|]. split; [intros d []|discriminate].
+    - destruct outs as [|o1 rest].
+      { cbn in H. inversion H; subst. unfold follows. split; [cbn; lia|]. split; [discriminate|].
+        split; [intros i Hi; destruct i; discriminate|]. split; [intros d []|discriminate]. }
+      cbn [obtain_async] in H. rewrite (issue_cases ca testca k o1 rest Ht Hne Hn) in H.
+      assert (Base1 : forall (d1 : str) (rr : issue_result), (forall d, rr = ICert d -> d = norm ca) ->
+                (d1 = if (0 <? k)%Z then testca else norm ca) -> d1 <> testca \/ o1 <> OrdOk \/ rest = [] ->
+                (1 <= length (o1 :: rest))%nat /\ (forall d, rr = ICert d -> d = norm ca) /\
+                follows testca (norm ca) [d1] (o1 :: rest) /\
+                (forall d, In d [d1] -> d = testca \/ d = norm ca) /\
+                (forall d, hd_error [d1] = Some d -> d = if (0 <? k)%Z then testca else norm ca)).
+      { intros d1 rr Hr Hd Hx. split; [cbn; lia|]. split; [exact Hr|]. split; [|split].
+        - intros i Hi Ho Hl. destruct i as [|i]; [|destruct i; discriminate].
+          cbn in Hi, Ho. inversion Hi; inversion Ho; subst.
+          destruct Hx as [Hx|[Hx|Hx]]; try congruence. subst rest. cbn in Hl. lia.
+        - intros d [<-|[]]. destruct (0 <? k)%Z; subst; auto.
+        - intros d Hd'. cbn in Hd'. inversion Hd'; subst. reflexivity. }
+      (* the continuation after a retryable failure of this attempt *)
+      assert (Cont : forall (dsk : list str) n, dsk <> [] -> n = length dsk -> (n <= length (o1 :: rest))%nat ->
+                (forall d, In d dsk -> d = testca \/ d = norm ca) ->
+                (forall d, hd_error dsk = Some d -> d = if (0 <? k)%Z then testca else norm ca) ->
+                follows testca (norm ca) dsk (o1 :: rest) ->
+                (* the last order of the attempt is not a successful test order with a successor *)
+                (nth_error dsk (n - 1) = Some testca -> nth_error (o1 :: rest) (n - 1) = Some OrdOk -> (n < length (o1 :: rest))%nat -> False) ->
+                forall ds' r', obtain_async norm f ca testca (k + 1) (skipn n (o1 :: rest)) = (ds', r') ->
+                (length (dsk ++ ds') <= length (o1 :: rest))%nat /\ (forall d, r' = ICert d -> d = norm ca) /\
+                follows testca (norm ca) (dsk ++ ds') (o1 :: rest) /\
+                (forall d, In d (dsk ++ ds') -> d = testca \/ d = norm ca) /\
+                (forall d, hd_error (dsk ++ ds') = Some d -> d = if (0 <? k)%Z then testca else norm ca)).
+      { intros dsk n Hnn -> Hlen Hin Hhd Hfol Hlast ds' r' Hrec.
+        destruct (IH ca testca (k + 1)%Z _ ds' r' Ht Hne Hn ltac:(lia) Hrec) as [L [C [F [I Hh]]]].
+        rewrite skipn_length in L.
+        split; [rewrite app_length; lia|]. split; [exact C|]. split; [|split].
+        - intros i Hi Ho Hl.
+          destruct (Nat.lt_ge_cases (S i) (length dsk)) as [Hlt|Hge].
+          + rewrite nth_error_app1 in Hi by lia. rewrite nth_error_app1 by lia. apply Hfol; auto.
+          + destruct (Nat.eq_dec (S i) (length dsk)) as [He|Hn'].
+            * exfalso. rewrite nth_error_app1 in Hi by lia.
+              apply Hlast; replace (length dsk - 1)%nat with i by lia; auto. lia.
+            * rewrite nth_error_app2 in Hi by lia. rewrite nth_error_app2 by lia.
+              replace (S i - length dsk)%nat with (S (i - length dsk)) by lia.
+              apply F; auto.
+              -- rewrite nth_error_skipn'. replace (length dsk + (i - length dsk))%nat with i by lia. exact Ho.
+              -- rewrite skipn_length. lia.
+        - intros d Hd. apply in_app_or in Hd. destruct Hd; auto.
+        - intros d Hd. destruct dsk as [|x dsk']; [congruence|]. cbn in Hd. apply Hhd. cbn. exact Hd. }
+      destruct (0 <? k)%Z eqn:Ek.
+      + destruct o1 as [| |].
+        * destruct rest as [|[| |] rest'].
+          -- match type of H with (let (_, _) := ?X in _) = _ => destruct X as [ds' r'] eqn:Hrec end.
+          inversion H; subst.
+          apply (Cont [testca] 1%nat);
+            [discriminate | reflexivity | cbn; lia | intros d [<-|[]]; auto | intros d Hd; inversion Hd; reflexivity | intros i Hi Ho Hl; cbn in Hl; lia | intros _ _ Hl; cbn in Hl; lia | exact Hrec].
+          -- inversion H; subst. split; [cbn; lia|]. split; [intros d Hd; inversion Hd; reflexivity|].
+          split; [intros i Hi Ho Hl; destruct i as [|[|i]]; [reflexivity|cbn in Hi; exfalso; apply Hn; congruence|destruct i; discriminate]|]. split; [intros d [<-|[<-|[]]]; auto|intros d Hd; inversion Hd; reflexivity].
+          -- match type of H with (let (_, _) := ?X in _) = _ => destruct X as [ds' r'] eqn:Hrec end.
+          inversion H; subst.
+          apply (Cont [testca; norm ca] 2%nat);
+            [discriminate | reflexivity | cbn; lia | intros d [<-|[<-|[]]]; auto | intros d Hd; inversion Hd; reflexivity | intros i Hi Ho Hl; destruct i as [|[|i]]; [reflexivity|cbn in Hi; exfalso; apply Hn; congruence|destruct i; discriminate] | intros Hi; cbn in Hi; exfalso; apply Hn; congruence | exact Hrec].
+          -- inversion H; subst. split; [cbn; lia|]. split; [discriminate|].
+          split; [intros i Hi Ho Hl; destruct i as [|[|i]]; [reflexivity|cbn in Hi; exfalso; apply Hn; congruence|destruct i; discriminate]|]. split; [intros d [<-|[<-|[]]]; auto|intros d Hd; inversion Hd; reflexivity].
+        * match type of H with (let (_, _) := ?X in _) = _ => destruct X as [ds' r'] eqn:Hrec end.
+          inversion H; subst.
+          apply (Cont [testca] 1%nat);
+            [discriminate | reflexivity | cbn; lia | intros d [<-|[]]; auto | intros d Hd; inversion Hd; reflexivity | intros i Hi Ho Hl; destruct i as [|i]; [cbn in Ho; discriminate|destruct i; discriminate] | intros _ Ho; cbn in Ho; discriminate | exact Hrec].
+        * match type of H with (let (_, _) := ?X in _) = _ => destruct X as [ds' r'] eqn:Hrec end.
+          inversion H; subst.
+          apply (Cont [testca] 1%nat);
+            [discriminate | reflexivity | cbn; lia | intros d [<-|[]]; auto | intros d Hd; inversion Hd; reflexivity | intros i Hi Ho Hl; destruct i as [|i]; [cbn in Ho; discriminate|destruct i; discriminate] | intros _ Ho; cbn in Ho; discriminate | exact Hrec].
+      + destruct o1 as [| |].
+        * inversion H; subst. apply Base1; auto. intros d Hd; inversion Hd; reflexivity.
+        * match type of H with (let (_, _) := ?X in _) = _ => destruct X as [ds' r'] eqn:Hrec end.
+          inversion H; subst.
+          apply (Cont [norm ca] 1%nat);
+            [discriminate | reflexivity | cbn; lia | intros d [<-|[]]; auto | intros d Hd; inversion Hd; reflexivity | intros i Hi Ho Hl; destruct i as [|i]; [cbn in Ho; discriminate|destruct i; discriminate] | intros _ Ho; cbn in Ho; discriminate | exact Hrec].
+        * match type of H with (let (_, _) := ?X in _) = _ => destruct X as [ds' r'] eqn:Hrec end.
+          inversion H; subst.
+          apply (Cont [norm ca] 1%nat);
+            [discriminate | reflexivity | cbn; lia | intros d [<-|[]]; auto | intros d Hd; inversion Hd; reflexivity | intros i Hi Ho Hl; destruct i as [|i]; [cbn in Ho; discriminate|destruct i; discriminate] | intros _ Ho; cbn in Ho; discriminate | exact Hrec].
+  Qed.
 End TestCAProofs.
 
 (** * the job manager as it was before the fix (kept as a record of the finding) *)
